@@ -1083,6 +1083,75 @@ func cfRandResp(rnd *rand.Rand, call string) cfResp {
 	return r
 }
 
+// cfNearFine: a response that lets the operation proceed, with one group of fields taken from
+// a random response (so that the later steps of multi-request operations are reached too).
+func cfNearFine(rnd *rand.Rand, call string) cfResp {
+	x := cfRandResp(rnd, call)
+	r := cfResp{Loc: cfPick(rnd, "path", "path", "pathq", "url", "rel", "pathfq", "dup"), Rf: "num", Rb: int64(rnd.Intn(4)), Dig: "none", Link: "none",
+		Ctype: "json", Mf: "none", Crf: "ok", Crtot: 2, Body: "empty", Bcont: "e", Bend: "eof", Raw: map[string]string{}}
+	codes := map[string]int{"PushBlob": 202, "PushBlobChunked": 202, "Resume": 204, "Write": 202, "Close": 202, "Commit": 201, "MountBlob": 201,
+		"PushManifest": 201, "DeleteBlob": 202, "DeleteManifest": 202, "DeleteTag": 202, "GetBlobRange": 206}
+	r.Code = codes[call]
+	if r.Code == 0 {
+		r.Code = 200
+	}
+	if call == "PushBlob" && rnd.Intn(2) == 0 {
+		r.Code = 201
+	}
+	switch call {
+	case "GetBlob", "GetManifest", "GetTag", "GetBlobRange", "ResolveBlob", "ResolveManifest", "ResolveTag":
+		r.Body, r.Bcont = "blob", cfPick(rnd, "c", "c", "c", "B", "w", "s", "l")
+		r.Cl = cfNum{K: int64(len(cfCat.bytes[r.Bcont]))}
+		if rnd.Intn(3) > 0 {
+			r.Dig, r.Halg, r.Hcont = "ok", cfPick(rnd, "sha256", "sha512"), cfPick(rnd, r.Bcont, r.Bcont, "c")
+		}
+	case "Repositories", "Tags", "Referrers":
+		r.Body = "list"
+		r.Items = cfNum{K: []int64{0, 1, 2, 3, 999, 1000, 1001}[rnd.Intn(7)]}
+		r.Link = cfPick(rnd, "none", "ok")
+	}
+	copyRaw := func(keys ...string) {
+		for _, k := range keys {
+			if v, ok := x.Raw[k]; ok {
+				r.Raw[k] = v
+			}
+		}
+	}
+	switch rnd.Intn(12) {
+	case 0:
+		r.Code = x.Code
+	case 1:
+		r.Loc = x.Loc
+		copyRaw("loc")
+	case 2:
+		r.Rf, r.Ra, r.Rb = x.Rf, x.Ra, x.Rb
+		copyRaw("rng")
+	case 3:
+		r.Dig, r.Halg, r.Hcont = x.Dig, x.Halg, x.Hcont
+		copyRaw("dig")
+	case 4:
+		r.Link = x.Link
+		copyRaw("link")
+	case 5:
+		r.Mf, r.Mv = x.Mf, x.Mv
+		copyRaw("minlen")
+	case 6:
+		r.Crf, r.Crtot = x.Crf, x.Crtot
+		copyRaw("crange")
+	case 7:
+		r.Body, r.Bcont, r.Items, r.Bend = x.Body, x.Bcont, x.Items, x.Bend
+		copyRaw("body")
+	case 8:
+		r.Cl = x.Cl
+	case 9:
+		r.Bend = "cut"
+	}
+	if len(r.Raw) == 0 {
+		r.Raw = nil
+	}
+	return r
+}
+
 func cfRandScenario(rnd *rand.Rand) *cfScenario {
 	s := &cfScenario{src: "random"}
 	s.PS = []int{-1, 0, 1, 2, -1, 0, 1, 2, -7, 3}[rnd.Intn(10)]
@@ -1139,8 +1208,23 @@ func cfRandScenario(rnd *rand.Rand) *cfScenario {
 	if len(s.calls) > 1 && s.calls[1].Name != "ReadAll" {
 		last = "Write"
 	}
-	for i := 1 + rnd.Intn(5); i > 0; i-- {
-		s.script = append(s.script, cfRandResp(rnd, cfPick(rnd, c.Name, c.Name, last)))
+	fine := rnd.Intn(3) > 0 // mostly well-behaved answers with single faults, or arbitrary answers throughout
+	for i, k := 1+rnd.Intn(6), 0; i > 0; i, k = i-1, k+1 {
+		step := c.Name
+		if k > 0 {
+			step = cfPick(rnd, last, last, c.Name)
+			if last == "Write" && rnd.Intn(3) == 0 {
+				step = "Commit"
+			}
+			if c.Name == "PushBlob" {
+				step = "Commit" // the PUT of a monolithic push: 201
+			}
+		}
+		if fine && rnd.Intn(5) > 0 {
+			s.script = append(s.script, cfNearFine(rnd, step))
+		} else {
+			s.script = append(s.script, cfRandResp(rnd, step))
+		}
 	}
 	if rnd.Intn(6) == 0 && len(s.script) > 0 {
 		// a script that repeats its last answer
